@@ -381,6 +381,31 @@ def analyse_copy(ctx: Any, prog: Program, modname: str, clsname: str, meth: str,
         ctx.check('C09.P1', ok, mod, fn, f'field `{f}` of {clsname} does not reach the copy ' +
                   (f'(it is set from `{U(srcs[0][0])[:50]}` which never reads self.{f})' if srcs else '(never passed to the constructor nor assigned on the result)'),
                   func=qual, text=f'{clsname}.{f} copied')
+    # P1 (conditional carry-over): `self.f if <test> else <default>` carries the field only sometimes.  That is the documented behaviour for a
+    # caller's switch (`... if keep_vis else ...`) and for a presence test (`is None`); a test on the field's own *value* silently replaces
+    # some legitimate values by the constructor default
+    params_ = {a.arg for a in fn.args.args + fn.args.kwonlyargs}            # type: ignore[attr-defined]
+    for f, srcs in flows.items():
+        for e, _ in srcs:
+            exprs_ = [e] + ([v for v in ca.local_defs.get(e.id, [])] if isinstance(e, ast.Name) else [])
+            for ex_ in exprs_:
+                for ie in [x for x in ast.walk(ex_) if isinstance(x, ast.IfExp)]:
+                    arms_read = [f in ca.fields_read(ie.body), f in ca.fields_read(ie.orelse)]
+                    if arms_read.count(True) != 1:
+                        continue
+                    t_ = ie.test
+                    if isinstance(t_, ast.UnaryOp) and isinstance(t_.op, ast.Not):
+                        t_ = t_.operand
+                    switch = isinstance(t_, ast.Name) and t_.id in params_
+                    presence = isinstance(t_, ast.Compare) and len(t_.ops) == 1 and isinstance(t_.ops[0], (ast.Is, ast.IsNot)) and isinstance(t_.comparators[0], ast.Constant) and t_.comparators[0].value is None
+                    on_value = any(isinstance(x, ast.Attribute) and dotted(x.value) == 'self' and x.attr == f for x in ast.walk(ie.test)) and not presence
+                    if switch or presence:
+                        continue
+                    ctx.shape('C09.P1', on_value, mod, ie, f'{qual}: the condition `{U(ie.test)[:50]}` under which `{f}` is carried over is neither a caller switch, a presence test nor a test on the field itself', func=qual,
+                              text=f'{clsname}.{f} carried over unconditionally')
+                    if on_value:
+                        ctx.check('C09.P1', False, mod, ie, f'{qual} carries `{f}` over only when `{U(ie.test)[:60]}` is {"false" if arms_read[1] else "true"}: for the other values the copy gets '
+                                  f'`{U(ie.orelse if arms_read[0] else ie.body)[:30]}` (the constructor then makes up its own) and its export differs from the original', func=qual, text=f'{clsname}.{f} carried over unconditionally')
     # ---- P2 ----------------------------------------------------------------------------------------
     for f, srcs in flows.items():
         ann = types.get(f)
@@ -644,6 +669,7 @@ def run(ctx: Any, prog: Program) -> None:
 
 
 MUTANTS = [
+    {'id': 'entity_copy_logical_pos_heuristic', 'file': 'vmf.py', 'find': "            logical_pos=self.logical_pos,\n            vis_shown=self.vis_shown if keep_vis else True,", 'replace': "            logical_pos=None if self.logical_pos.startswith('[0 ') else self.logical_pos,\n            vis_shown=self.vis_shown if keep_vis else True,", 'expect': 'C09.P1'},
     {'id': 'entity_copy_shares_fixup_records', 'file': 'vmf.py', 'find': "            fixup=self._fixup.copy_values() if self._fixup is not None else (),", 'replace': "            fixup=self._fixup._fixup.values() if self._fixup is not None else (),", 'expect': 'C09.P2'},
     {'id': 'side_copy_disp_by_truthiness', 'file': 'vmf.py', 'find': "        if self.is_disp:\n            assert self.disp_pos is not None\n            assert self._disp_verts is not None\n            new_side.disp_flags = self.disp_flags", 'replace': "        if self.is_disp and self.disp_pos and self._disp_verts:\n            new_side.disp_flags = self.disp_flags", 'expect': 'C09.P5'},
     {'id': 'ok_side_copy_disp_by_identity', 'file': 'vmf.py', 'find': "        if self.is_disp:\n            assert self.disp_pos is not None\n            assert self._disp_verts is not None\n            new_side.disp_flags = self.disp_flags", 'replace': "        if self.is_disp and self.disp_pos is not None and self._disp_verts is not None:\n            new_side.disp_flags = self.disp_flags", 'expect': None},
